@@ -26,7 +26,8 @@ RULE = ("valid base calls from the C01/C09 generators plus transform and grid-uf
 
 EDITS_OP = ["unknown_axis", "lacking_dim", "double_dim", "same_position", "missing_position",
             "bad_boundary", "bad_boundary_map", "bad_position_word", "bad_fill", "bad_fill_map"]
-EDITS_OTHER = ["transform_periodic", "nonmonotonic_bins", "conservative_no_outer", "ufunc_offpos", "ufunc_count"]
+EDITS_OTHER = ["transform_periodic", "nonmonotonic_bins", "conservative_no_outer", "ufunc_offpos", "ufunc_count",
+               "pad_unknown_axis", "metric_on_illposed_data"]
 
 
 def gen_case(rng, tier, i):
@@ -158,6 +159,41 @@ def run_other(case):
         elif e == "conservative_no_outer":
             grid = xgcm.Grid(ds, coords={"Z": {"center": "zc", "left": "zl"}}, boundary="fill", autoparse_metadata=False)
             grid.transform(da, "Z", np.array([0.0, 2.0, 4.0]), target_data=theta_c, method="conservative")
+        elif e == "pad_unknown_axis":
+            # padding asked along an axis the grid lacks - through pad() itself, on a grid with and without faces
+            from xgcm.padding import pad
+            import facegrid as fg
+            if rng.random() < 0.6:
+                fds = fg.dataset(2, 3, [])
+                g = fg.make_grid(fds, {0: {"X": [None, [1, "X", False]], "Y": [None, None]},
+                                       1: {"X": [[0, "X", False], None], "Y": [None, None]}},
+                                 {"X": "fill", "Y": "fill"}, {"X": 0.0, "Y": 0.0})
+                arr = xr.DataArray(np.zeros((2, 3, 3)), dims=["face", "xc", "yc"])
+            else:
+                g = xgcm.Grid(ds, coords={"Z": {"center": "zc", "outer": "zo"}}, boundary="fill", autoparse_metadata=False)
+                arr = da
+            bw = rng.choice([{"W": (1, 1)}, {"X": (1, 1), "W": (1, 0)}, {"W": (0, 1), "Y": (1, 0)}]) if "X" in g.axes \
+                else rng.choice([{"W": (1, 1)}, {"Z": (1, 0), "Q": (0, 1)}])
+            pad(arr, g, boundary_width=bw)
+        elif e == "metric_on_illposed_data":
+            # data with two dimensions of the metric's axis, or none: no metric to hand out
+            mds = xr.Dataset(coords={"x": ("x", np.arange(3) + 0.5), "xl": ("xl", np.arange(3.0)), "y": ("y", np.arange(2) + 0.5),
+                                     "yl": ("yl", np.arange(2.0))})
+            mds["dxc"] = ("x", np.array([1.0, 2.0, 4.0]))
+            mds["dxl"] = ("xl", np.array([2.0, 1.0, 0.5]))
+            mds["dx_of_y"] = ("y", np.array([3.0, 5.0]))
+            mds["dx_of_yl"] = ("yl", np.array([3.0, 5.0]))
+            two = rng.random() < 0.6
+            g = xgcm.Grid(mds, coords={"X": {"center": "x", "left": "xl"}, "Y": {"center": "y", "left": "yl"}}, boundary="extend",
+                          metrics={("X",): ["dxc", "dxl"] if two else ["dx_of_y", "dx_of_yl"]}, autoparse_metadata=False)
+            bad = xr.DataArray(np.zeros((2, 3, 3)), dims=["y", "x", "xl"]) if two else xr.DataArray(np.zeros(2), dims=["y"])
+            how = rng.choice(["get_metric", "interp_weighted", "diff_weighted"])
+            if how == "get_metric":
+                g.get_metric(bad, rng.choice(["X", ("X",), ["X"]]))
+            elif how == "interp_weighted":
+                g.interp(bad, "Y", metric_weighted="X")
+            else:
+                g.diff(bad, "Y", metric_weighted=("X",))
         elif e == "ufunc_offpos":
             grid = xgcm.Grid(ds, coords={"Z": {"center": "zc", "left": "zl"}}, boundary="fill", autoparse_metadata=False)
             grid.apply_as_grid_ufunc(lambda a: a, xr.DataArray(np.zeros(n), dims=["zl"]), axis=[["Z"]],
